@@ -35,6 +35,15 @@ def rnd_index(rng, n):
     return rng.choice([-1, n, n + 1, -I64MAX - 1, I64MAX, 4294967296 + (n // 2), -n])
 
 
+def measured_flags():
+    """the two behaviours the translator measured on the current code (NV/gen/RtParams.v)"""
+    s = open(os.path.join(vlib.COQ, 'NV', 'gen', 'RtParams.v')).read()
+    return dict(clone_struct_fixed='rt_clone_struct_fixed : bool := true' in s, slice_clamped='rt_slice_clamped : bool := true' in s)
+
+
+FLAGS = dict(clone_struct_fixed=False, slice_clamped=False)
+
+
 def gen_history(rng, maxlen, stats):
     """one history: list of probe lines.  Tracks the length so that indices hit both sides of every bound."""
     kind = rng.choice(ALLK)
@@ -88,7 +97,7 @@ def gen_history(rng, maxlen, stats):
                 lines.append('clone'); stats['clone'] += 1
             elif r < 0.95:
                 a = rng.choice([0, 1, n // 2, n, n + 3, -2, rng.randrange(n + 1)])
-                b = rng.choice([0, 1, n, n + 5, -1, 9, 17, rng.randrange(n + 2), I64MAX - max(0, min(a, n))])
+                b = rng.choice([0, 1, n, n + 5, -1, 9, 17, rng.randrange(n + 2), I64MAX if FLAGS['slice_clamped'] else I64MAX - max(0, min(a, n))])
                 lines.append('slice %d %d' % (a, b)); stats['slice'] += 1
                 a2 = min(max(a, 0), n); n = max(0, min(n, a2 + max(b, 0)) - a2)
             elif r < 0.985 and kind == 3:
@@ -129,6 +138,8 @@ def gen_history(rng, maxlen, stats):
                 c = rng.choice([0, cap, cap + 1, 2 * cap, 17, 100]); lines.append('reserve %d' % c); cap = max(cap, c); stats['reserve'] += 1
             elif r < 0.81:
                 lines.append('len'); stats['len'] += 1
+            elif r < 0.85 and FLAGS['clone_struct_fixed']:
+                lines.append('clone'); stats['clone_struct'] += 1
             elif r < 0.97:
                 a = rng.choice([0, 1, n // 2, n, n + 3, -2, rng.randrange(n + 1)])
                 b = rng.choice([0, 1, n, n + 5, -1, 9, 17, rng.randrange(n + 2)])
@@ -257,7 +268,9 @@ def dyn_correspondence(ck, probe, ref):
 
 
 def dyn_crash_cases(ck, probe, ref):
-    """model says Crash  <=>  the real code dies with a sanitizer report at that operation (replays the open findings)"""
+    """Histories at the border of the specification's domain, each in its own probe process.  The model's parameters are
+    measured on the current code, so: model says Crash  <=>  the real code dies with a sanitizer report at that operation
+    (that replays the open findings); model says defined  <=>  the real code answers exactly what the model answers."""
     seen = {}
     for key, h in CRASH_CASES:
         rc, impl, err = run_probe(probe, h, timeout=60)
@@ -265,18 +278,22 @@ def dyn_crash_cases(ck, probe, ref):
         sl = san_lines(err)
         died = rc != 0 and len(impl) == len(h) - 1 and bool(sl)
         ck.count(('crash', tuple(h)), True)
-        if model[-1].split()[0] != 'crash':
-            ck.fail('c20:dyn:crashcase-model:' + ' '.join(h)[:60], 'model does not predict Crash on %r: %s' % (h, model[-1]), dict(part='dyn', history=h))
-            continue
-        if died:
-            if key:
-                ck.fail(key, 'dyn runtime leaves defined behaviour on %r: %s' % (h, sl[0][:200]),
-                        dict(part='dyn-crash', history=h, stderr=err[-1500:], engine='dyn_probe(asan)', expected_model='crash'))
-            seen.setdefault(key or 'caller-controlled-size', []).append(sl[0][:160])
+        if model[-1].split()[0] == 'crash':
+            if died:
+                if key:
+                    ck.fail(key, 'dyn runtime leaves defined behaviour on %r: %s' % (h, sl[0][:200]),
+                            dict(part='dyn-crash', history=h, stderr=err[-1500:], engine='dyn_probe(asan)', expected_model='crash'))
+                seen.setdefault(key or 'caller-controlled-size', []).append(sl[0][:160])
+            else:
+                ck.fail('c20:dyn:crashcase-impl:' + (key or ' '.join(h)[:40]), 'model predicts Crash but the real code survived %r (rc=%s, %s)' % (h, rc, impl[-1:]),
+                        dict(part='dyn-crash', history=h, expected_model='crash', observed_impl=impl[-1:], correspondence='dyn_probe vs nvref_c20'))
         else:
-            # model predicts a crash the real code does not exhibit: the model is wrong there (or the defect was repaired)
-            ck.fail('c20:dyn:crashcase-impl:' + (key or ' '.join(h)[:40]), 'model predicts Crash but the real code survived %r (rc=%s, %s)' % (h, rc, impl[-1:] ),
-                    dict(part='dyn-crash', history=h, expected_model='crash', observed_impl=impl[-1:], correspondence='dyn_probe vs nvref_c20'))
+            # the code present handles this history (repaired): ordinary correspondence
+            seen.setdefault((key or 'case') + ':repaired', []).append(model[-1][:120])
+            if rc != 0 or sl or impl != model:
+                ck.fail('c20:dyn:crashcase-repaired:' + (key or ' '.join(h)[:40]),
+                        'the code handles %r but differs from the model: impl=%s model=%s %s' % (h, impl[-1:], model[-1:], '; '.join(sl[:1])),
+                        dict(part='dyn', history=h, expected_model=model[-1], observed_impl=impl[-1:], stderr=err[-1500:], correspondence='dyn_probe vs nvref_c20'))
     return seen
 
 
@@ -402,6 +419,8 @@ def gc_correspondence(ck, ref):
 def run(ck):
     b = ck.build('plain')
     ck.gen(['gen_rtparams'])
+    FLAGS.update(measured_flags())
+    ck.extra['measured_flags'] = dict(FLAGS)
     ck.prove()
     ref = ck.nvref('c20')
     probe = ck.probe('dyn_probe.c', 'asan', extra=probe_extra())
